@@ -33,6 +33,7 @@ func (e *Enc) Encode() (err error) {
 	}
 	if e.fc != nil {
 		e.panicTags = e.fc.PanicTags
+		e.ufArith = e.fc.Arith == "uf"
 	}
 	e.analyzeLoops()
 	// cross-check loop contracts
@@ -267,7 +268,14 @@ func (e *Enc) processBlock(b *ssa.BasicBlock) {
 		}
 		for k, inv := range lc.Inv {
 			c := e.loopCtx(li, st, over, nil)
-			e.oblige("inv-entry", fmt.Sprintf("loop%d#%d %s", li.ord, k+1, inv.Text), inv.Tags, c.evalBool(inv.E), token.NoPos)
+			cj := e.p.conjuncts(inv.E, deepSplit)
+			for j, cx := range cj {
+				label := fmt.Sprintf("loop%d#%d %s", li.ord, k+1, inv.Text)
+				if len(cj) > 1 {
+					label = fmt.Sprintf("loop%d#%d.%d %s", li.ord, k+1, j+1, exprString(cx))
+				}
+				e.oblige("inv-entry", label, inv.Tags, c.evalBool(cx), token.NoPos)
+			}
 		}
 		// havoc
 		e.havocLoop(li, st)
